@@ -3,7 +3,12 @@ pub mod vio {
     use vstd::prelude::*;
     use super::*;
 
+    #[derive(PartialEq, Eq, Clone, Copy)]
     pub enum ErrorKind { UnexpectedEof, Interrupted, WriteZero, Other, Uncategorized }
+    impl vstd::std_specs::cmp::PartialEqSpecImpl for ErrorKind {
+        open spec fn obeys_eq_spec() -> bool { true }
+        open spec fn eq_spec(&self, other: &Self) -> bool { *self == *other }
+    }
 
     #[verifier::external_body]
     pub struct Error { k: ErrorKind }
